@@ -189,15 +189,82 @@ def r4_failures_emitted(ctx):
             r.violation(k, cfg.loc(f.main), "%s is never invoked: nothing is checked" % callee, work=1)
 
 
+LOSSY = re.compile(r"mpsc::(bounded::)?Sender::<.*>::(try_send|try_reserve|try_reserve_owned|send_timeout)$")
+SENDS = re.compile(r"mpsc::(bounded::)?Sender::<.*>::(send|blocking_send)$")
+SHARED = re.compile(r"(sync::mutex::Mutex::<.*>::(lock|try_lock)|sync::rwlock::RwLock::<.*>::write|atomic::Atomic\w+::(fetch_add|load))$")
+
+
+def r5_nothing_skipped(ctx):
+    """Every row / folder that is read reaches the comparison: no lossy channel
+    operation, and the scan is shut down only when the shared completion count
+    says that every folder task has finished."""
+    ws = ctx.ws
+    r = ctx.rule("C16-R5", "no item is dropped on the way to the comparison: channel sends wait for capacity, and the shutdown signal is gated by shared completion state",
+                 floor=3, kind="K1 who-may-call + K4 flow into a dominating comparison")
+    nsend = 0
+    for root, fn in sorted(ws.fns.items()):
+        if fn.crate != "sos_integrity":
+            continue
+        idx = 0
+        for b, i, t in fn.calls():
+            full = t.get("callee") or ""
+            if LOSSY.search(full):
+                idx += 1
+                r.violation("%s|lossy-send#%d" % (root, idx), cfg.loc(b, i),
+                            "`%s` on the bounded channel of the integrity stream drops the item when the channel is full: rows past the channel capacity are never hashed" % cname(t), work=1)
+            elif SENDS.search(full):
+                nsend += 1
+    if nsend >= 3:
+        r.ok("sos_integrity|sends-wait", "-", "%d channel sends in sos_integrity, all awaiting capacity (send / blocking_send)" % nsend, work=nsend)
+    else:
+        r.anchor_missing("channel sends in sos_integrity (found %d)" % nsend)
+    for rx in (r"^sos_integrity::account_integrity::account_integrity$", r"^sos_integrity::file_integrity::file_integrity$"):
+        fns = ws.find_fns(rx)
+        if not fns:
+            r.anchor_missing(rx)
+            continue
+        f = fns[0]
+        fg = FlowGraph(ws, f)
+        gates = 0
+        for b in f.bodies:
+            live = cfg.live_blocks(b)
+            sends = [i for i, t in idioms.real_calls(b, live) if re.search(r"watch::Sender::<.*>::send$", t.get("callee") or "")]
+            if not sends:
+                continue
+            for j in sorted(live):
+                bs = cfg.bool_switch(b, j)
+                if not bs or bs.defn is None or bs.def_is_term or bs.defn.get("k") != "bin" or bs.defn.get("op") != "Eq":
+                    continue
+                # the send is behind the true edge only
+                if not all(x in cfg.reach(b, [bs.true_t]) and x not in cfg.reach(b, [0], cut_edges={(bs.block, bs.true_t)}) for x in sends):
+                    continue
+                gates += 1
+                shared = False
+                for o in bs.defn["ops"]:
+                    sl = fg.back_from_operand(b, o)
+                    if any(SHARED.search(ct.get("callee") or "") for _b, _i, ct in sl.calls):
+                        shared = True
+                k = "%s|shutdown-gate#%d" % (f.root, gates)
+                if shared:
+                    r.ok(k, cfg.loc(b, j), "the shutdown signal is sent when a counter read under a lock / atomically equals the number of items", work=len(live))
+                else:
+                    r.violation(k, cfg.loc(b, j),
+                                "the shutdown signal is gated by a comparison in which neither side comes from shared state (mutex / atomic): completion is inferred from dispatch order, so a task that finishes early cancels readers that are still scanning",
+                                work=len(live))
+        if gates == 0:
+            r.ok(f.root + "|shutdown-gate", cfg.loc(f.main), "no count-gated shutdown signal in this function", work=1)
+
+
 def run(ctx):
     ctx.explanation = (
         "Sibling-agreement and edge-dominance rules over sos-integrity: (R1) the sqlite branch of the vault stream reads "
         "every content accessor of SecretRow that Vault::commit_hash covers (meta and secret), the file branch the row "
         "value range; (R2) each check recomputes SHA-256; (R3) the mismatch edge of each hash comparison leads to the "
         "failure value, the failure is constructed only behind that edge and never behind the equal edge; (R4) missing "
-        "and error cases construct failures. Decides that the right bytes are compared and no mismatch is swallowed; "
+        "and error cases construct failures; (R5) no lossy channel operation on the way to the comparison and the shutdown signal is gated by shared completion state. Decides that the right bytes are compared and no mismatch is swallowed; "
         "per-byte completeness is a runtime layout fact and not decided.")
     ctx.trust("sha2 / rs_merkle Sha256")
     r1_db_row_hash_covers_both_blobs(ctx)
     r2_r3_hash_and_gate(ctx)
     r4_failures_emitted(ctx)
+    r5_nothing_skipped(ctx)
